@@ -543,10 +543,19 @@ def generate(params):
 	budget = (150000 if big else 60000)
 	total = r.randint(30, max(40, min(400 if big else 260, budget // W)))
 	nchrom = r.randint(2, 4)
+	if big == 2:
+		# one chromosome of 150-200 kb (past 2**16 and 2**17 positions,
+		# thousands of tiles) next to a short one
+		total = r.randint(200000 // W, 260000 // W)
+		nchrom = 2
 	names = r.sample(CHROM_NAMES, nchrom)
 	cuts = sorted(r.sample(range(3, total - 3), nchrom - 1)) if total > \
 		3 * nchrom + 6 else [total * (i + 1) // nchrom for i in
 		range(nchrom - 1)]
+	if big == 2:
+		cuts = [int(total * r.uniform(.7, .8))]
+		if r.random() < .5:
+			cuts = [total - cuts[0]]
 	sizes = [b - a for a, b in zip([0] + cuts, cuts + [total])]
 	sizes = [max(3, s) for s in sizes]
 	low = off_edge(int(round(W * r.uniform(.15, .30))), W, w)
@@ -1031,6 +1040,11 @@ def plan(tier, seed):
 					"nj": 1, "u": u, "n": n // 2, "seed": seed, "big": 0,
 					"weight": n // 2})
 				u += 1
+	for bw in (1, 2, 0):
+		units.append({"cls": "gen", "scen": "mixed", "bw": bw, "nj": 2, "u": u,
+			"n": 3 if tier == "quick" else 16, "seed": seed, "big": 2,
+			"weight": 60})
+		u += 1
 	units.append({"cls": "explicit", "weight": 30})
 	return units
 
@@ -1043,7 +1057,8 @@ def run_unit(unit, rec):
 		finally:
 			shutdown_pool()
 		return
-	cls = unit["scen"] + BWNAME[unit["bw"]]
+	cls = unit["scen"] + BWNAME[unit["bw"]] + ("/long-chromosome"
+		if unit.get("big") == 2 else "")
 	try:
 		for k in range(unit["n"]):
 			run_case(cls, {"seed": unit["seed"], "u": unit["u"], "k": k,
